@@ -310,3 +310,15 @@ Example C20_default_nonvacuous :
   match lookup "D" (digest_tab (prerender [("A", Core.VStr "a")] vals ER)) with
   | Some fs => map f_default fs | None => [] end = [Some (JArr [JInt 0; JStr "a"]); Some JNull].
 Proof. reflexivity. Qed.
+
+(* ---- Annotated constraints, mappings with non-str keys (Counter, ChainMap spellings), in one run ---- *)
+Example C20_annotated_map_nonvacuous :
+  let t := TTuple [TAnn [ANum AMinimum 0; ANum AMaxLength 3; APattern "^a*$"] TInt;
+                   TAnn [ANum AMinLength 0; APattern "^a*$"; ANum AMaximum 9] TStr;
+                   TAnn [ANum AMaxItems 3; AUnique false] (TSet TInt);
+                   TAnn [ANum AMinProps 1] (TMap (TLeaf "string" (Some "date") None) TInt);
+                   TList (TMap TInt TAny)] in
+  (exists s st, schema_fuel [] (mkcfg false "#") 0 t [] = SOk (s, st) /\ meta_ok (render s) = true /\ norm (render s) = NOk (render s)
+     /\ canon (render s) = "{4:types5:array11:prefixItems[{4:types7:integer7:minimumi0;}{4:types6:string9:minLengthi0;7:patterns4:^a*$}{4:types5:array5:items{4:types7:integer}8:maxItemsi3;11:uniqueItemsf}{4:types6:object20:additionalProperties{4:types7:integer}13:propertyNames{4:types6:string6:formats4:date}13:minPropertiesi1;}{4:types5:array5:items{4:types6:object13:propertyNames{4:types7:integer}}}]8:maxItemsi5;8:minItemsi5;}") /\
+  schema_fuel [] (mkcfg false "#") 0 (TAnn [ANum AMinItems (-1)] (TList TInt)) [] = SErr.
+Proof. split; [eexists _, _; split; [vm_compute; reflexivity|]; repeat split; vm_compute; reflexivity|reflexivity]. Qed.
